@@ -13,7 +13,7 @@ CORPUS = [
     Mut('c14-iwae-wrong-axis-size', KL, 'ELBO._call', 'lp = (torch.logsumexp(log_p - log_q, -1) - torch.tensor(float(log_p.shape[-1])).log()).mean()',
         'lp = (torch.logsumexp(log_p - log_q, -1) - torch.tensor(float(log_p.shape[0])).log()).mean()', expect=[]),
     Mut('c14-klpq-no-normalise', KL, 'KLpq._call', 'log_w_norm = log_w - torch.logsumexp(log_w, -1)', 'log_w_norm = log_w', expect=[('C14.T', 'KLpq._call')]),
-    Mut('c14-vr-no-scale', VR, 'VR._call', 'return log_w_mean.sum(-1) / (1.0 - self.alpha)', 'return log_w_mean.sum(-1)', expect=[('C14.T', 'VR._call')]),
+    Mut('c14-vr-no-scale', VR, 'VR._call', 'return log_w_mean.mean(-1) / (1.0 - self.alpha)', 'return log_w_mean.mean(-1)', expect=[('C14.T', 'VR._call')]),
     Mut('c14-vr-no-log-n', VR, 'VR._call', 'log_w_mean = torch.logsumexp(log_w, dim=-1) - math.log(log_w.shape[-1])', 'log_w_mean = torch.logsumexp(log_w, dim=-1)', expect=[('C14.T', 'VR._call')]),
     Mut('c14-vr-alpha', VR, 'VR._call', 'log_w = (1.0 - self.alpha) * (self.p() - self.q())', 'log_w = self.alpha * (self.p() - self.q())', expect=[('C14.T', 'VR._call')]),
     Mut('c14-cubo-no-shift', CH, 'CUBO._call', 'return torch.log(log_w_rescaled.mean()) / self.n + log_max', 'return torch.log(log_w_rescaled.mean()) / self.n', expect=[('C14.T', 'CUBO._call')]),
@@ -25,8 +25,13 @@ CORPUS = [
     Mut('c14-cubo-sample-not-rsample', CH, 'CUBO._call', 'self.q.rsample(samples)', 'self.q.sample(samples)', expect=[('C14.S', 'CUBO._call::reparameterised-draw')]),
     # benign
     Mut('c14-benign-elbo-split', KL, 'ELBO._call', 'lp = (self.p() - self.q()).mean()', 'log_p = self.p()\nlog_q = self.q()\nlp = (log_p - log_q).mean()', benign=True),
-    Mut('c14-benign-vr-reorder', VR, 'VR._call', 'return log_w_mean.sum(-1) / (1.0 - self.alpha)', 'return (1.0 / (1.0 - self.alpha)) * log_w_mean.sum(-1)', benign=True),
+    Mut('c14-benign-vr-reorder', VR, 'VR._call', 'return log_w_mean.mean(-1) / (1.0 - self.alpha)', 'return (1.0 / (1.0 - self.alpha)) * log_w_mean.mean(-1)', benign=True),
     Mut('c14-benign-mathlog', KL, 'ELBO._call', 'lp = (torch.logsumexp(log_p - log_q, -1) - torch.tensor(float(log_p.shape[-1])).log()).mean()',
         'lp = (torch.logsumexp(log_p - log_q, -1) - math.log(log_p.shape[-1])).mean()', benign=True),
+    Mut('c14-vr-sums-outer-dimension', 'torchtree/variational/renyi.py', '', "        return log_w_mean.mean(-1) / (1.0 - self.alpha)", "        return log_w_mean.sum(-1) / (1.0 - self.alpha)", expect=[('C14.T', 'VR._call::sample-shape=[S,K]')], mode='text'),
+    Mut('c14-joint-iterates-models-only', 'torchtree/distributions/joint_distribution.py', '', "        for distr in self._distributions.callables():", "        for distr in self._distributions.models():", expect=[('C14.C', 'JointDistributionModel.log_prob::sums-every-callable-component')], mode='text'),
+    Mut('c14-elbo-flags-swapped-positionally', 'torchtree/variational/kl.py', '', "        obj = _from_json(cls, data, dic)\n        obj.entropy = data.get('entropy', False)\n        obj.score = data.get('score', False)\n        return obj",
+        "        samples = data.get('samples', 1)\n        return cls(data['id'], process_object(data['variational'], dic), process_object(data['joint'], dic), samples, data.get('score', False), data.get('entropy', False))",
+        expect=[('C14.O', 'ELBO::positional')], mode='text'),
 ]
 CORPUS = [m for m in CORPUS if m.id != 'c14-iwae-wrong-axis-size']
